@@ -239,7 +239,10 @@ func g6One(c *Ctx, mr *mapRange) {
 		case *ssa.Slice:
 			return classify(x.X, d+1)
 		case *ssa.Lookup:
-			if isIterDerived(x.Index) {
+			// an entry of another map selected by this iteration's key or value itself is this iteration's own; an entry
+			// selected by something that was itself looked up under the key (m2[m1[key]]) need not be: two keys can
+			// lead to the same entry, and then the map's order decides which write stays
+			if isIterDerived(x.Index) && !throughLookup(x.Index, iter, 0) {
 				return "perkey"
 			}
 			return classify(x.X, d+1)
@@ -919,6 +922,43 @@ func sortKeyCovers(c *Ctx, call *ssa.Call, keyT types.Type) (bool, string) {
 	return lessCoversKey(c, less, keyT)
 }
 
+// throughLookup: v is obtained from the iteration's key / value only by way of a map lookup (or an index into a
+// slice): it is an entry stored under the key, not the key itself.
+func throughLookup(v ssa.Value, iter map[ssa.Value]bool, d int) bool {
+	if d > 12 || v == nil || iter[v] {
+		return false
+	}
+	switch x := v.(type) {
+	case *ssa.Lookup:
+		return true
+	case *ssa.Extract:
+		return throughLookup(x.Tuple, iter, d+1)
+	case *ssa.UnOp:
+		return throughLookup(x.X, iter, d+1)
+	case *ssa.ChangeType:
+		return throughLookup(x.X, iter, d+1)
+	case *ssa.Convert:
+		return throughLookup(x.X, iter, d+1)
+	case *ssa.Field:
+		return throughLookup(x.X, iter, d+1)
+	case *ssa.FieldAddr:
+		return throughLookup(x.X, iter, d+1)
+	case *ssa.Phi:
+		for _, e := range x.Edges {
+			if throughLookup(e, iter, d+1) {
+				return true
+			}
+		}
+	case *ssa.Alloc:
+		for _, sv := range cellStores(x) {
+			if throughLookup(sv, iter, d+1) {
+				return true
+			}
+		}
+	}
+	return false
+}
+
 // lessCoversKey analyses a `func(i, j int) bool` closure.
 func lessCoversKey(c *Ctx, less *ssa.Function, keyT types.Type) (bool, string) {
 	if len(less.Params) != 2 {
@@ -981,7 +1021,15 @@ func lessCoversKey(c *Ctx, less *ssa.Function, keyT types.Type) (bool, string) {
 		if !ok1 || !ok2 || a != b {
 			return false, "comparator does not compare the same expression of elements i and j"
 		}
-		if !types.Identical(args[0].Type(), keyT) {
+		argT := args[0].Type()
+		if pt, isPtr := argT.Underlying().(*types.Pointer); isPtr && !types.Identical(argT, keyT) {
+			// the comparator is handed the addresses of the two keys
+			switch args[0].(type) {
+			case *ssa.FieldAddr, *ssa.IndexAddr:
+				argT = pt.Elem()
+			}
+		}
+		if !types.Identical(argT, keyT) {
 			return false, fmt.Sprintf("sort key has type %s, the map key has type %s", args[0].Type(), keyT)
 		}
 		ok, how := lessMethodConsultsAllFields(callee)
@@ -999,6 +1047,9 @@ func lessCoversKey(c *Ctx, less *ssa.Function, keyT types.Type) (bool, string) {
 func lessMethodConsultsAllFields(fn *ssa.Function) (bool, string) {
 	if len(fn.Params) != 2 {
 		return false, "not a binary comparator"
+	}
+	if g := comparatorForwardedTo(fn); g != nil {
+		return lessMethodConsultsAllFields(g)
 	}
 	st := structOf(fn.Params[0].Type())
 	if st == nil {
@@ -1044,6 +1095,51 @@ func lessMethodConsultsAllFields(fn *ssa.Function) (bool, string) {
 		return false, why
 	}
 	return true, fmt.Sprintf("%d/%d fields consulted", st.NumFields(), st.NumFields())
+}
+
+// comparatorForwardedTo: fn is `return g(a, b)` / `return g(&a, &b)` with a, b its two operands in order and nothing
+// else: the comparison is g's.
+func comparatorForwardedTo(fn *ssa.Function) *ssa.Function {
+	if len(fn.Blocks) != 1 || len(fn.Params) != 2 {
+		return nil
+	}
+	ret, ok := fn.Blocks[0].Instrs[len(fn.Blocks[0].Instrs)-1].(*ssa.Return)
+	if !ok || len(ret.Results) != 1 {
+		return nil
+	}
+	call, ok := ret.Results[0].(*ssa.Call)
+	if !ok || call.Call.IsInvoke() || len(call.Call.Args) != 2 {
+		return nil
+	}
+	g := call.Call.StaticCallee()
+	if g == nil || len(g.Blocks) == 0 || g == fn || len(g.Params) != 2 {
+		return nil
+	}
+	for k := 0; k < 2; k++ {
+		a := call.Call.Args[k]
+		if a == ssa.Value(fn.Params[k]) {
+			continue
+		}
+		al, isAl := a.(*ssa.Alloc)
+		if !isAl {
+			return nil
+		}
+		sts := cellStores(al)
+		if len(sts) != 1 || sts[0] != ssa.Value(fn.Params[k]) {
+			return nil
+		}
+	}
+	for _, in := range fn.Blocks[0].Instrs {
+		switch x := in.(type) {
+		case *ssa.Call:
+			if x != call {
+				return nil
+			}
+		case *ssa.MapUpdate, *ssa.Go, *ssa.Defer, *ssa.Send:
+			return nil
+		}
+	}
+	return g
 }
 
 // lessStagesMisguarded: the comparator is a chain of stages `if a.F differs from b.F { return ... }`. A stage may be
